@@ -210,7 +210,7 @@ theorem Views.putVerified {cfg : Cfg} {dist : Nat → Nat} (inj : Injective dist
       h.congr rfl rfl rfl rfl
     simp only
     split
-    · exact h1
+    · exact h1.congr rfl rfl rfl rfl
     · rename_i s2 hs2
       exact (prune_views inj h1 hs2).congr rfl rfl rfl rfl
 
